@@ -169,10 +169,10 @@ fn empty_args(_x: &X) -> X {
 
 pub fn dispatch(comp: &str, x: &X) -> Option<X> {
     Some(match comp {
-        "reg.ops" | "reg.ops_orig" => registry(x),
+        "reg.ops" | "reg.ops_v0" => registry(x),
         "std.bsearch" => bsearch(x),
-        "present.parse" | "present.parse_orig" => present(x),
-        "present.empty_args" => empty_args(x),
+        "present.parse" | "present.parse_v0" => present(x),
+        "present.empty_args" | "present.empty_args_v0" => empty_args(x),
         _ => return None,
     })
 }
